@@ -246,18 +246,21 @@ func (c *chunkReader) Read(p []byte) (int, error) {
 	return n, nil
 }
 
-// quotaWriter accepts exactly quota bytes in total and then fails with err.
+// quotaWriter accepts exactly quota bytes in total and then fails with err. With transient set it
+// fails only once: later calls are accepted again (a correct caller never makes them).
 type quotaWriter struct {
-	buf    bytes.Buffer
-	quota  int // -1: unlimited
-	eager  bool
-	err    error
-	writes int
+	buf       bytes.Buffer
+	quota     int // -1: unlimited
+	eager     bool
+	transient bool
+	err       error
+	writes    int
+	failed    int
 }
 
 func (q *quotaWriter) Write(p []byte) (int, error) {
 	q.writes++
-	if q.quota < 0 {
+	if q.quota < 0 || (q.transient && q.failed > 0) {
 		return q.buf.Write(p)
 	}
 	room := q.quota - q.buf.Len()
@@ -269,6 +272,7 @@ func (q *quotaWriter) Write(p []byte) (int, error) {
 		return 0, nil
 	}
 	q.buf.Write(p[:room])
+	q.failed++
 	return room, q.err
 }
 
